@@ -342,3 +342,47 @@ func GenSFDatagram(t *rapid.T) SFDatagram {
 	}
 	return d
 }
+
+// StructuralOffsets returns the octet offsets of the 32-bit words that carry types, counts and lengths.
+func (d *SFDatagram) StructuralOffsets() []int {
+	offs := []int{0, 4}
+	off := 8 + len(d.Agent) + 12
+	offs = append(offs, off) // samples count
+	off += 4
+	for i := range d.Samples {
+		s := &d.Samples[i]
+		enc := s.encode()
+		offs = append(offs, off, off+4)
+		body := off + 8
+		switch s.Kind {
+		case "flow":
+			offs = append(offs, body+4, body+28)
+			r := body + 32
+			for k := range s.Flow.Recs {
+				re := s.Flow.Recs[k].encode()
+				offs = append(offs, r, r+4)
+				switch s.Flow.Recs[k].Kind {
+				case "raw":
+					offs = append(offs, r+8, r+20)
+					// first octets of the sampled header (ether type / version / protocol live here)
+					for o := r + 24; o < r+len(re) && o < r+24+60; o += 4 {
+						offs = append(offs, o)
+					}
+				case "router":
+					offs = append(offs, r+8)
+				}
+				r += len(re)
+			}
+		case "counter":
+			offs = append(offs, body+4, body+8)
+			r := body + 12
+			for k := range s.Counter.Recs {
+				re := s.Counter.Recs[k].encode()
+				offs = append(offs, r, r+4)
+				r += len(re)
+			}
+		}
+		off += len(enc)
+	}
+	return offs
+}
